@@ -248,6 +248,10 @@ func (e *Engine) Cancel(inserted, cached bool) {
 	} else {
 		e.line.Set(*e.compLine...)
 		e.cursor.Set(e.compCursor.Pos())
+
+		// The candidate has replaced the prefix in the line: a candidate
+		// inserted after this one must not cut it again (accept-and-menu-complete).
+		e.prefix = ""
 	}
 }
 
